@@ -15,6 +15,14 @@ CHECKS = {
     note=NOTE_COMMON + 'serde_derive case.rs taken from the offline cargo registry. Unicode tables: Section-style parameter (any table agreeing with ASCII).',
     technique='Rocq proof by induction over identifiers + exhaustive three-way differential correspondence',
     design='§11 C16'),
+ 'C13': dict(
+    text='Machine-checked theorems (Props/C13.v, closed under the global context): for cfg predicates of any depth and arity the LIFO stack walk '
+         'of TargetOsIterator yields, as a multiset, exactly the OS names of a structural specification, so accept_target_os equals the '
+         'documented rule; empty target list filters nothing; predicates naming no OS never exclude; the walk terminates. Tied to the code by '
+         'running parser::parse on generated programs with the guard at 8 attachment positions and comparing presence with model and rule.',
+    note=NOTE_COMMON + 'syn is not modelled (attribute AST obtained from the same source text by harness/libdrive/src/ast.rs). Domain: nested cfg lists that parse as meta lists.',
+    technique='Rocq proof (induction on predicate size, permutation invariance) + differential correspondence through parser::parse',
+    design='§11 C13'),
 }
 NOT_YET = {}
 def main():
